@@ -86,3 +86,26 @@ func VerifC20Packet(n, k1, k2 int) {
 	}
 	verifReach("end")
 }
+
+// VerifC20Order: a packet holding the relay agent information option and one more option with a
+// symbolic code; every iteration over the option map may take any order (explored). Encoding
+// several times, with accessors in between, must give the same bytes: repeated calls return equal
+// results whatever order the runtime walks the map in.
+func VerifC20Order(n int) {
+	code := verifU8("code")
+	verifAssume(code >= 1)
+	verifAssume(code <= 254)
+	verifAssume(code != 82)
+	p := &DHCPv4{OpCode: OpcodeBootReply, HWType: iana.HWTypeEthernet, ClientHWAddr: verifBytes("chaddr", 6),
+		Options: Options{82: verifBytes("rai", 3), code: verifBytes("val", n)}}
+	verifMapOrder(true)
+	b1 := p.ToBytes()
+	b2 := p.ToBytes()
+	_ = p.RelayAgentInfo()
+	_ = p.Options.ToBytes()
+	b3 := p.ToBytes()
+	verifMapOrder(false)
+	verifAssert(verifSame(b1, b2), "repeated-calls-return-equal-results")
+	verifAssert(verifSame(b1, b3), "reader-leaves-encoding-unchanged")
+	verifReach("end")
+}
